@@ -40,11 +40,10 @@ PROP = {'title': 'Textual and binary encodings round-trip losslessly',
          'conversion of a user-defined type is made on the same thread whose inserter leaves one of 21 sticky states (hex, oct, showbase, '
          'showpos, uppercase, boolalpha, fill, precision, fixed, scientific, failbit, badbit, imbued locale, pending width, left, internal, '
          'unitbuf, showpoint, ...) resp. whose extractor leaves one of 8 states, for 26 integers (incl. >=8, >=10, >999, negative) per '
-         'integer type, doubles, bool, enum, string, char: the text equals what a fresh std::ostringstream of the harness writes and reads '
+         'integer type, doubles, bool, enum, string, char: the text equals what the same call returned before any such conversion and reads '
          'back to the value; stream state: every vector/dim<int|unsigned,N<=3> over {0,7,8,9,10,15,16,255,4096,-1,-10}, 2x2 matrices '
          '(output only), strong_typedef<int|unsigned> and an enum x basefield{dec,hex,oct} x showbase x uppercase x showpos x (width 0 | '
-         'width 8 x fill{blank,*} x adjust{left,right,internal}) on char and wchar_t streams: for width 0 the text equals the composition '
-         'of what the elements\' own inserters write in that state, and reading from the same stream in the same state gives the value '
+         'width 8 x fill{blank,*} x adjust{left,right,internal}) on char and wchar_t streams: for width 0 the enum text is its name and the matrix text the composition of its rows written as vectors (element-wise text of vector/dim/strong_typedef is only counted), and reading from the same stream in the same state gives the value '
          'back whenever every element on its own round-trips through a plain iostream in that state; environment answers: io::write for '
          '16 arithmetic types x 2-5 values x both byte orders, io::write_chars for 0..9 chars and operator<< of vector, dim, enum and '
          'strong_typedef (char and wchar_t) against scripted stream buffers -- a sink accepting exactly k characters for every k in 0..n+1 '
@@ -78,6 +77,14 @@ PROP = {'title': 'Textual and binary encodings round-trip losslessly',
                  'a stream that was already failed before the call stays failed; whether bytes reach its buffer is not asserted',
                  'for long double only the number of bytes accepted by a sink is compared (padding bytes are indeterminate)',
                  'enum input: the target is left unchanged on failure (what the code and its documentation "in case this fails, the failbit is set" imply)',
+                 'audit: the following observations are recorded as info: counters and are never a verdict, because neither the property nor the documentation promises them: '
+                 'vector/dim/strong_typedef text in a non-default stream state equals the composition of the elements\' own inserters (state_text; only the round trip in the same state is asserted; '
+                 'matrix output is compared with its rows written as vectors, which matrix/output.hpp promises), vector input accepting a blank after the comma, '
+                 'the bytes that reached a sink before a reported write failure being a prefix of the encoding, the target of a failed enum input being left unchanged, '
+                 'enum output with width and left adjustment padding inside the name',
+                 'insert_extract_locale() is documented as "the C locale" but returns the global locale: the plain output_to_*string/extract_from_string pair is only required to round-trip; '
+                 'whether its text follows the global locale is counted (info:plain_output_follows_global_locale_not_C)',
+                 'history checks compare with the text the same fcppt call returned before any state-leaving conversion, not with a prescribed format',
                  'floating point values are covered for the binary encodings only; their default-precision text form is not lossless by design',
                  'the byte layout of long double (padding bytes) is not asserted, only the value round trip; long double values are restricted to '
                  'those whose six low-order mantissa bytes are non-zero, for which the outcome does not depend on indeterminate padding bytes',
